@@ -222,10 +222,17 @@ package res
 //@   ensures encoded: errenc == old(errenc) + 1 && imp(e != nil, errlast == ref(e))
 //@   ensures_on_panic dup: old(r.replied) && r.replied && rcount == old(rcount)
 //@
+//@ # resenc: result values handed to the encoder by Request.success; reslast: the last one (C18: the response carries the data the handler supplied)
+//@ ghostvar resenc int
+//@ ghostvar reslast iface
 //@ func (r *Request) success(result interface{}, m *metaObject)
 //@   requires reqOK(r)
 //@   requires metaOK: imp(m != nil, r.isHTTP)
-//@   modifies res.Request.replied, ghost.rcount, ghost.pubn, alloc, ghost.errenc, ghost.errlast
+//@   ghost call Marshal#1 before :: assert verbatim: typeIs(arg_v, "res.successResponse") && same(unbox(arg_v, "res.successResponse").Result, result) && unbox(arg_v, "res.successResponse").Meta == m
+//@   ghost call Marshal#1 after :: set resenc = resenc + 1
+//@   ghost call Marshal#1 after :: set reslast = result
+//@   ensures encoded: resenc == old(resenc) + 1 && same(reslast, result)
+//@   modifies res.Request.replied, ghost.rcount, ghost.pubn, alloc, ghost.errenc, ghost.errlast, ghost.resenc, ghost.reslast
 //@   ensures ok: !old(r.replied) && r.replied && rcount == store(old(rcount), ref(r), old(rcount[ref(r)]) + 1)
 //@   ensures_on_panic dup: old(r.replied) && r.replied && rcount == old(rcount)
 //@
@@ -246,8 +253,9 @@ package res
 //@ pred respX(q *Request) = invR(q) && imp(old(q.replied), q.replied) && rcount == old(rcount)
 //@
 //@ func (r *Request) OK(result interface{})
+//@   ensures data: imp(!isNil(result), resenc == old(resenc) + 1 && same(reslast, result))
 //@   requires reqOK(r) && invR(r)
-//@   modifies res.Request.replied, ghost.rcount, ghost.pubn, alloc, res.metaObject.Header, res.metaObject.Status, ghost.errenc, ghost.errlast
+//@   modifies res.Request.replied, ghost.rcount, ghost.pubn, alloc, res.metaObject.Header, res.metaObject.Status, ghost.errenc, ghost.errlast, ghost.resenc, ghost.reslast
 //@   ensures respOK(r) && !old(r.replied)
 //@   ensures_on_panic respX(r)
 //@ func (r *Request) Error(err error)
@@ -283,47 +291,57 @@ package res
 //@   ensures_on_panic respX(r)
 //@ func (r *Request) AccessGranted()
 //@   requires reqOK(r) && invR(r)
-//@   modifies res.Request.replied, ghost.rcount, ghost.pubn, alloc, res.metaObject.Header, res.metaObject.Status, ghost.errenc, ghost.errlast
+//@   modifies res.Request.replied, ghost.rcount, ghost.pubn, alloc, res.metaObject.Header, res.metaObject.Status, ghost.errenc, ghost.errlast, ghost.resenc, ghost.reslast
 //@   ensures respOK(r) && !old(r.replied)
 //@   ensures_on_panic respX(r)
 //@ func (r *Request) Access(get bool, call string)
 //@   requires reqOK(r) && invR(r)
-//@   modifies res.Request.replied, ghost.rcount, ghost.pubn, alloc, res.metaObject.Header, res.metaObject.Status, ghost.errenc, ghost.errlast
+//@   # C18: anything but "no access at all" is answered with a result carrying exactly the flag and the method list given
+//@   ensures granted: imp(get || len(call) > 0, resenc == old(resenc) + 1 && typeIs(reslast, "res.accessResponse") && unbox(reslast, "res.accessResponse").Get == get && same(unbox(reslast, "res.accessResponse").Call, call))
+//@   ensures denied: imp(!get && len(call) == 0, resenc == old(resenc))
+//@   modifies res.Request.replied, ghost.rcount, ghost.pubn, alloc, res.metaObject.Header, res.metaObject.Status, ghost.errenc, ghost.errlast, ghost.resenc, ghost.reslast
 //@   ensures respOK(r) && !old(r.replied)
 //@   ensures_on_panic respX(r)
 //@ func (r *Request) model(model interface{}, query string)
+//@   ensures data: resenc == old(resenc) + 1 && typeIs(reslast, "res.modelResponse") && same(unbox(reslast, "res.modelResponse").Model, model) && same(unbox(reslast, "res.modelResponse").Query, query)
 //@   requires reqOK(r) && invR(r)
-//@   modifies res.Request.replied, ghost.rcount, ghost.pubn, alloc, ghost.errenc, ghost.errlast
+//@   modifies res.Request.replied, ghost.rcount, ghost.pubn, alloc, ghost.errenc, ghost.errlast, ghost.resenc, ghost.reslast
 //@   ensures respOK(r) && !old(r.replied)
 //@   ensures_on_panic respX(r)
 //@ func (r *Request) collection(collection interface{}, query string)
+//@   ensures data: resenc == old(resenc) + 1 && typeIs(reslast, "res.collectionResponse") && same(unbox(reslast, "res.collectionResponse").Collection, collection) && same(unbox(reslast, "res.collectionResponse").Query, query)
 //@   requires reqOK(r) && invR(r)
-//@   modifies res.Request.replied, ghost.rcount, ghost.pubn, alloc, ghost.errenc, ghost.errlast
+//@   modifies res.Request.replied, ghost.rcount, ghost.pubn, alloc, ghost.errenc, ghost.errlast, ghost.resenc, ghost.reslast
 //@   ensures respOK(r) && !old(r.replied)
 //@   ensures_on_panic respX(r)
 //@ func (r *Request) Model(model interface{})
+//@   ensures data: resenc == old(resenc) + 1 && typeIs(reslast, "res.modelResponse") && same(unbox(reslast, "res.modelResponse").Model, model) && len(unbox(reslast, "res.modelResponse").Query) == 0
 //@   requires reqOK(r) && invR(r)
-//@   modifies res.Request.replied, ghost.rcount, ghost.pubn, alloc, ghost.errenc, ghost.errlast
+//@   modifies res.Request.replied, ghost.rcount, ghost.pubn, alloc, ghost.errenc, ghost.errlast, ghost.resenc, ghost.reslast
 //@   ensures respOK(r) && !old(r.replied)
 //@   ensures_on_panic respX(r)
 //@ func (r *Request) QueryModel(model interface{}, query string)
+//@   ensures data: resenc == old(resenc) + 1 && typeIs(reslast, "res.modelResponse") && same(unbox(reslast, "res.modelResponse").Model, model) && same(unbox(reslast, "res.modelResponse").Query, query)
 //@   requires reqOK(r) && invR(r)
-//@   modifies res.Request.replied, ghost.rcount, ghost.pubn, alloc, ghost.errenc, ghost.errlast
+//@   modifies res.Request.replied, ghost.rcount, ghost.pubn, alloc, ghost.errenc, ghost.errlast, ghost.resenc, ghost.reslast
 //@   ensures respOK(r) && !old(r.replied)
 //@   ensures_on_panic respX(r)
 //@ func (r *Request) Collection(collection interface{})
+//@   ensures data: resenc == old(resenc) + 1 && typeIs(reslast, "res.collectionResponse") && same(unbox(reslast, "res.collectionResponse").Collection, collection) && len(unbox(reslast, "res.collectionResponse").Query) == 0
 //@   requires reqOK(r) && invR(r)
-//@   modifies res.Request.replied, ghost.rcount, ghost.pubn, alloc, ghost.errenc, ghost.errlast
+//@   modifies res.Request.replied, ghost.rcount, ghost.pubn, alloc, ghost.errenc, ghost.errlast, ghost.resenc, ghost.reslast
 //@   ensures respOK(r) && !old(r.replied)
 //@   ensures_on_panic respX(r)
 //@ func (r *Request) QueryCollection(collection interface{}, query string)
+//@   ensures data: resenc == old(resenc) + 1 && typeIs(reslast, "res.collectionResponse") && same(unbox(reslast, "res.collectionResponse").Collection, collection) && same(unbox(reslast, "res.collectionResponse").Query, query)
 //@   requires reqOK(r) && invR(r)
-//@   modifies res.Request.replied, ghost.rcount, ghost.pubn, alloc, ghost.errenc, ghost.errlast
+//@   modifies res.Request.replied, ghost.rcount, ghost.pubn, alloc, ghost.errenc, ghost.errlast, ghost.resenc, ghost.reslast
 //@   ensures respOK(r) && !old(r.replied)
 //@   ensures_on_panic respX(r)
 //@ func (r *Request) New(rid Ref)
+//@   ensures data: resenc == old(resenc) + 1 && typeIs(reslast, "res.Ref") && same(unbox(reslast, "res.Ref"), rid)
 //@   requires reqOK(r) && invR(r)
-//@   modifies res.Request.replied, ghost.rcount, ghost.pubn, alloc, ghost.errenc, ghost.errlast
+//@   modifies res.Request.replied, ghost.rcount, ghost.pubn, alloc, ghost.errenc, ghost.errlast, ghost.resenc, ghost.reslast
 //@   ensures respOK(r) && !old(r.replied)
 //@   ensures_on_panic respX(r)
 //@ func (r *Request) Resource(rid string)
@@ -361,18 +379,55 @@ package res
 //@ func Request.executeHandler$1()
 //@   requires reqOK(r) && invR(r)
 //@   modifies res.Request.replied, ghost.rcount, ghost.pubn, alloc, res.metaObject.Header, res.metaObject.Status, ghost.errenc, ghost.errlast
-//@   ensures quiet: imp(isNil(recovered), r.replied == old(r.replied) && rcount == old(rcount))
-//@   ensures answered: imp(!isNil(recovered), r.replied && invR(r))
+//@   # panicking is cleared after callHandler returned: a nil recover() value with the flag still set is a panic(nil)
+//@   ensures quiet: imp(isNil(recovered) && !panicking, r.replied == old(r.replied) && rcount == old(rcount))
+//@   ensures answered: imp(!isNil(recovered) || panicking, r.replied && invR(r))
+//@   # C05: a panic with a non-nil *Error before any reply sends that very error object (whatever its fields)
+//@   ensures verbatim: imp(typeIs(recovered, "*res.Error") && ptrOf(recovered, "*res.Error") != nil && !old(r.replied), errenc == old(errenc) + 1 && errlast == ref(ptrOf(recovered, "*res.Error")))
 //@
-//@ func (r *Request) executeHandler()
+//@ func (r *Request) callHandler()
 //@   requires reqOK(r) && !r.replied && rcount[ref(r)] == 0 && invR(r)
 //@   requires rt: r.rtype == "access" || r.rtype == "get" || r.rtype == "call" || r.rtype == "auth"
 //@   modifies all
+//@   may_panic
 //@   callback Access handler
 //@   callback Get handler
 //@   callback New handler
 //@   callback h handler
 //@   dead src:Unknown request type
+//@   ensures answered: imp(!(r.rtype == "access" && r.h.Access == nil), r.replied && rcount[ref(r)] == 1)
+//@   ensures silent: imp(r.rtype == "access" && r.h.Access == nil, rcount[ref(r)] == 0)
+//@   ensures frame: same(r.rtype, old(r.rtype)) && same(r.method, old(r.method)) && same(r.h, old(r.h))
+//@   # C05: exactly the handler registered for the type / method is invoked
+//@   ensures inv.access: imp(old(r.rtype == "access" && r.h.Access != nil), ninvoked == old(ninvoked) + 1 && invokedFn == old(ref(r.h.Access)))
+//@   ensures inv.get: imp(old(r.rtype == "get" && r.h.Get != nil), ninvoked == old(ninvoked) + 1 && invokedFn == old(ref(r.h.Get)))
+//@   ensures inv.new: imp(old(r.rtype == "call" && r.method == "new" && r.h.New != nil), ninvoked == old(ninvoked) + 1 && invokedFn == old(ref(r.h.New)))
+//@   ensures inv.call: imp(old(r.rtype == "call" && !(r.method == "new" && r.h.New != nil) && r.h.Call[r.method] != nil), ninvoked == old(ninvoked) + 1 && invokedFn == old(ref(r.h.Call[r.method])))
+//@   ensures inv.callstar: imp(old(r.rtype == "call" && !(r.method == "new" && r.h.New != nil) && r.h.Call[r.method] == nil && r.h.Call["*"] != nil), ninvoked == old(ninvoked) + 1 && invokedFn == old(ref(r.h.Call["*"])))
+//@   ensures inv.auth: imp(old(r.rtype == "auth" && r.h.Auth[r.method] != nil), ninvoked == old(ninvoked) + 1 && invokedFn == old(ref(r.h.Auth[r.method])))
+//@   ensures inv.authstar: imp(old(r.rtype == "auth" && r.h.Auth[r.method] == nil && r.h.Auth["*"] != nil), ninvoked == old(ninvoked) + 1 && invokedFn == old(ref(r.h.Auth["*"])))
+//@   ensures inv.none: imp(old((r.rtype == "access" && r.h.Access == nil) || (r.rtype == "get" && r.h.Get == nil)
+//@       || (r.rtype == "call" && !(r.method == "new" && r.h.New != nil) && r.h.Call[r.method] == nil && r.h.Call["*"] == nil)
+//@       || (r.rtype == "auth" && r.h.Auth[r.method] == nil && r.h.Auth["*"] == nil)), ninvoked == old(ninvoked))
+//@   # a panicking handler leaves the request in a state the recover closure can answer from, and was the selected one
+//@   ensures ok: reqOK(r) && invR(r)
+//@   ensures_on_panic handled: !(r.rtype == "access" && r.h.Access == nil)
+//@   ensures_on_panic state: reqOK(r) && invR(r) && same(r.rtype, old(r.rtype)) && same(r.method, old(r.method)) && same(r.h, old(r.h))
+//@   ensures_on_panic inv.access: imp(old(r.rtype == "access" && r.h.Access != nil), ninvoked == old(ninvoked) + 1 && invokedFn == old(ref(r.h.Access)))
+//@   ensures_on_panic inv.get: imp(old(r.rtype == "get" && r.h.Get != nil), ninvoked == old(ninvoked) + 1 && invokedFn == old(ref(r.h.Get)))
+//@   ensures_on_panic inv.new: imp(old(r.rtype == "call" && r.method == "new" && r.h.New != nil), ninvoked == old(ninvoked) + 1 && invokedFn == old(ref(r.h.New)))
+//@   ensures_on_panic inv.call: imp(old(r.rtype == "call" && !(r.method == "new" && r.h.New != nil) && r.h.Call[r.method] != nil), ninvoked == old(ninvoked) + 1 && invokedFn == old(ref(r.h.Call[r.method])))
+//@   ensures_on_panic inv.callstar: imp(old(r.rtype == "call" && !(r.method == "new" && r.h.New != nil) && r.h.Call[r.method] == nil && r.h.Call["*"] != nil), ninvoked == old(ninvoked) + 1 && invokedFn == old(ref(r.h.Call["*"])))
+//@   ensures_on_panic inv.auth: imp(old(r.rtype == "auth" && r.h.Auth[r.method] != nil), ninvoked == old(ninvoked) + 1 && invokedFn == old(ref(r.h.Auth[r.method])))
+//@   ensures_on_panic inv.authstar: imp(old(r.rtype == "auth" && r.h.Auth[r.method] == nil && r.h.Auth["*"] != nil), ninvoked == old(ninvoked) + 1 && invokedFn == old(ref(r.h.Auth["*"])))
+//@   ensures_on_panic inv.none: imp(old((r.rtype == "access" && r.h.Access == nil) || (r.rtype == "get" && r.h.Get == nil)
+//@       || (r.rtype == "call" && !(r.method == "new" && r.h.New != nil) && r.h.Call[r.method] == nil && r.h.Call["*"] == nil)
+//@       || (r.rtype == "auth" && r.h.Auth[r.method] == nil && r.h.Auth["*"] == nil)), ninvoked == old(ninvoked))
+//@
+//@ func (r *Request) executeHandler()
+//@   requires reqOK(r) && !r.replied && rcount[ref(r)] == 0 && invR(r)
+//@   requires rt: r.rtype == "access" || r.rtype == "get" || r.rtype == "call" || r.rtype == "auth"
+//@   modifies all
 //@   ensures answered: imp(!(r.rtype == "access" && r.h.Access == nil), r.replied && rcount[ref(r)] == 1)
 //@   ensures silent: imp(r.rtype == "access" && r.h.Access == nil, rcount[ref(r)] == 0)
 //@   ensures frame: same(r.rtype, old(r.rtype)) && same(r.method, old(r.method)) && same(r.h, old(r.h))
@@ -456,12 +511,20 @@ package res
 //@   ghost unlock 2 before :: set qpos = store(qpos, ref(w), qhead + len(s.workqueue) - 1)
 //@   ghost unlock 3 before :: assert accepted.append: w != nil && wst[ref(w)] != 0 && len(w.queue) >= 1 && w.queue[len(w.queue)-1] == cb && keyid(w.wid) == keyid(wid)
 //@
+//@ # decodedMsg: the message whose payload was handed to the JSON decoder by processRequest
+//@ ghostvar decodedMsg ref
 //@ func (s *Service) processRequest(m *nats.Msg, rtype string, rname string, method string, mh *Match)
 //@   requires s != nil && m != nil && !isNil(s.nc)
 //@   requires rt: rtype == "access" || rtype == "get" || rtype == "call" || rtype == "auth"
 //@   requires fresh: forallge(q, nextRef(), rcount[q] == 0)
 //@   modifies all
 //@   ghost call Unmarshal#1 before :: assert zeroed: isZero(rc)
+//@   # every non-empty payload goes through the decoder (whole, into rc) before a handler can run: a payload that is not
+//@   # JSON is answered with the decoder's error, and the fields the handler sees are the decoded ones
+//@   ghost entry :: set decodedMsg = 0
+//@   ghost call Unmarshal#1 before :: assert whole: same(arg_data, m.Data)
+//@   ghost call Unmarshal#1 after :: set decodedMsg = ref(m)
+//@   ghost call Request.executeHandler#1 before :: assert f.decoded: imp(len(m.Data) > 0, decodedMsg == ref(m))
 //@   ghost call Request.reply#1 before :: set lastReq = ref(r)
 //@   ghost call Request.error#1 before :: set lastReq = ref(r)
 //@   ghost call Request.executeHandler#1 before :: assert f.route: same(r.rname, rname) && same(r.pathParams, mh.Params) && same(r.group, mh.Group) && same(r.rtype, rtype) && same(r.method, method)
@@ -539,6 +602,8 @@ package res
 //@   requires subject: nameOK(subj)
 //@   modifies ghost.trn, ghost.trk, ghost.tra, ghost.pubn, alloc
 //@   callback onError benign
+//@   # C07: only a payload that the encoder produced without error is published, on the subject given
+//@   ghost call Conn.Publish#1 before :: assert wellformed: isNil(err) && same(arg_payload, payload) && same(arg_subject, subj)
 //@   ghost call Conn.Publish#1 after :: set trk = store(trk, trn, 2)
 //@   ghost call Conn.Publish#1 after :: set tra = store(tra, trn, 0)
 //@   ghost call Conn.Publish#1 after :: set trn = trn + 1
@@ -984,6 +1049,8 @@ package res
 //@   requires qe != nil && qe.r.s != nil && qe.sub != nil
 //@   modifies all
 //@   callsite select#1 builtin.selectQuery
+//@   # C15: the callback of every query request is serialised in the resource's group (the worker id handed to runWith)
+//@   ghost call Service.runWith#1 before :: assert group: same(arg_wid, qe.r.group)
 //@   loop 1 invariant qe != nil && qe.r.s != nil
 //@ func queryEvent.startQueryListener$1()
 //@   requires qe != nil && qe.r.s != nil && m != nil && !isNil(qe.r.s.nc) && qe.cb != nil
@@ -1003,6 +1070,7 @@ package res
 //@   callsite close#1 builtin.closeSignal
 //@   # the subscription is drained and the listener is told to stop; the final nil call is queued in the resource's group
 //@   ghost call Service.runWith#1 before :: assert released: drained[ref(qe.sub)] && chclosed[ref(qe.done)]
+//@   ghost call Service.runWith#1 before :: assert group: same(arg_wid, qe.r.group)
 //@   ensures quiet: qcalls == old(qcalls) && qnil == old(qnil)
 //@ func (r *resource) QueryEvent(cb func(QueryRequest))
 //@   requires resOK(r) && cb != nil && r.s.queryTQ != nil
@@ -1240,6 +1308,34 @@ package res
 //@ lemma sameNoWild(a string, r string)
 //@   requires forall(k, 0, len(a), !wildAt(a, k)) && r == a
 //@   ensures forall(k, 0, len(r), !wildAt(r, k))
+//@ # ---- tree walk (C08: listeners are validated at Serve by ValidateListeners, which relies on traverse handing every node
+//@ # to its callback). tvn / tvnode: the log of callback invocations made by traverse and the node given to each.
+//@ # The callbacks passed by go-res (callOnRegister, ValidateListeners) do not touch the links of the tree.
+//@ ghostvar tvn int
+//@ ghostvar tvnode arr
+//@ func callback.traverseCB(self ref, n *node, path []string, mountIdx int)
+//@   requires n != nil
+//@   modifies all
+//@   ensures tvn == old(tvn) && tvnode == old(tvnode) && unchanged("res.node.wild", "res.node.param", "res.node.nodes", "res.node.mounted")
+//@ func traverse(n *node, path []string, mountIdx int, cb func(*node, []string, int))
+//@   requires cb != nil && tvn >= 0
+//@   modifies all
+//@   callback cb traverseCB
+//@   ghost call traverseCB#1 after :: set tvnode = store(tvnode, tvn, ref(n))
+//@   ghost call traverseCB#1 after :: set tvn = tvn + 1
+//@   ensures nil: imp(n == nil, tvn == old(tvn) && tvnode == old(tvnode))
+//@   # the node itself is reported first, whatever it holds, and then the subtrees of its wildcard and placeholder children
+//@   ensures self: imp(n != nil, tvn > old(tvn) && tvnode[old(tvn)] == ref(n))
+//@   ensures log: tvn >= old(tvn) && forall(k, 0, old(tvn), tvnode[k] == old(tvnode[k]))
+//@   ensures links: unchanged("res.node.wild", "res.node.param", "res.node.nodes", "res.node.mounted")
+//@   ensures wild: imp(n != nil && old(n.wild) != nil, exists(k, old(tvn), tvn, tvnode[k] == ref(old(n.wild))))
+//@   ensures param: imp(n != nil && old(n.param) != nil, exists(k, old(tvn), tvn, tvnode[k] == ref(old(n.param))))
+//@   loop 1 invariant unchanged("res.node.wild", "res.node.param", "res.node.nodes", "res.node.mounted")
+//@   loop 1 invariant a: cb != nil && n != nil
+//@   loop 1 invariant b: tvn > old(tvn)
+//@   loop 1 invariant c: tvnode[old(tvn)] == ref(n)
+//@   loop 1 invariant d: forall(k, 0, old(tvn), tvnode[k] == old(tvnode[k]))
+//@   loop 1 invariant imp(old(n.wild) != nil, exists(k, old(tvn), tvn, tvnode[k] == ref(old(n.wild)))) && imp(old(n.param) != nil, exists(k, old(tvn), tvn, tvnode[k] == ref(old(n.param))))
 //@ func (m *Mux) callOnRegister()
 //@   nobody
 //@   requires m != nil
